@@ -635,7 +635,10 @@ Token *tokenize(File *file) {
     error_at(p, "invalid token");
   }
 
+  // The end-of-file token also ends the last line, even if the input
+  // stops in the middle of it (no trailing newline, or a NUL byte).
   cur = cur->next = new_token(TK_EOF, p, p);
+  cur->at_bol = true;
   add_line_numbers(head.next);
   return head.next;
 }
